@@ -2,6 +2,7 @@ package conslog
 
 import (
 	"math/rand"
+	"strings"
 
 	"github.com/Shopify/sarama"
 )
@@ -203,14 +204,28 @@ func genTxn(rng *rand.Rand, next *int64, n, nb int, allCommit bool) (Log, []Abor
 	var l Log
 	var txns []AbortedTxn
 	k := 1 + rng.Intn(3)
+	if rng.Intn(2) == 0 {
+		k = 1 // one producer id: back-to-back transactions, aborted then committed
+	}
 	open := map[int64][]int{} // pid -> indexes of its data batches in l
 	firstOff := map[int64]int64{}
 	ntx := 0
 	maxTx := 1 + rng.Intn(5)
+	if rng.Intn(2) == 0 {
+		maxTx = 3 + rng.Intn(3)
+	}
+	// abort-then-commit by the same producer id, back to back: after an abort the next data batch reuses the id
+	// and that transaction commits
+	reuse := int64(0)
+	mustCommit := map[int64]bool{}
 	closeTxn := func(pid int64) {
 		typ := 1
-		if !allCommit && rng.Intn(2) == 0 {
+		if !allCommit && rng.Intn(2) == 0 && !mustCommit[pid] {
 			typ = 0
+		}
+		delete(mustCommit, pid)
+		if _, ok := open[pid]; ok && typ == 0 && rng.Intn(2) == 0 {
+			reuse = pid
 		}
 		marker := *next
 		if idxs, ok := open[pid]; ok {
@@ -243,8 +258,15 @@ func genTxn(rng *rand.Rand, next *int64, n, nb int, allCommit bool) (Log, []Abor
 			l = append(l, Unit{B: controlBatch(rng, next, int64(1+rng.Intn(k)), 2)}) // control record of a type the client does not know
 		}
 		b := genBatch(rng, next, sz, rng.Intn(4) == 0)
-		if rng.Intn(4) != 0 && (ntx < maxTx || len(open) > 0) {
+		if reuse != 0 || (rng.Intn(4) != 0 && (ntx < maxTx || len(open) > 0)) {
 			pid := int64(1 + rng.Intn(k))
+			if reuse != 0 {
+				pid, reuse = reuse, 0
+				mustCommit[pid] = true
+				if _, ok := open[pid]; !ok && ntx >= maxTx {
+					maxTx = ntx + 1
+				}
+			}
 			if _, ok := open[pid]; !ok {
 				if ntx >= maxTx {
 					// continue some open transaction instead
@@ -261,6 +283,9 @@ func genTxn(rng *rand.Rand, next *int64, n, nb int, allCommit bool) (Log, []Abor
 			}
 			b.PID, b.Txn = pid, true
 			open[pid] = append(open[pid], len(l))
+		} else if rng.Intn(3) == 0 {
+			// a non-transactional batch carrying a producer id that also runs transactions (idempotent writes)
+			b.PID = int64(1 + rng.Intn(k))
 		}
 		l = append(l, Unit{B: b})
 	}
@@ -288,6 +313,15 @@ func Gen(rng *rand.Rand, f Format, maxRecs int) Generated {
 		return g
 	}
 	holes := rng.Intn(3) == 0
+	if (f == FTxn || f == FCtrl) && maxRecs >= 16 && rng.Intn(4) != 0 {
+		// enough batches for several transactions
+		if n < 8 {
+			n += 8
+		}
+		if nb < 5 {
+			nb += 4
+		}
+	}
 	switch f {
 	case FV0:
 		g.Log = genPlain(rng, &next, n, 0, holes)
@@ -315,6 +349,54 @@ func Gen(rng *rand.Rand, f Format, maxRecs int) Generated {
 		}
 	case FTxn:
 		g.Log, g.Txns = genTxn(rng, &next, n, nb, false)
+	}
+	if err := g.Log.Encode(); err != nil {
+		panic(err)
+	}
+	return g
+}
+
+// Crafted builds a transactional log from a token string: "Tp" transactional data batch of producer p (two
+// records), "N" non-transactional batch, "Ap" / "Cp" abort / commit marker of producer p.  Used for the corpus
+// of hand-picked shapes (two aborted transactions in flight, abort then commit by one id, ...).
+func Crafted(rng *rand.Rand, spec string) Generated {
+	g := Generated{Format: FTxn}
+	next := int64(100)
+	open := map[int64][]int{}
+	first := map[int64]int64{}
+	for _, tok := range strings.Fields(spec) {
+		var pid int64
+		if len(tok) > 1 {
+			pid = int64(tok[1] - '0')
+		}
+		switch tok[0] {
+		case 'T':
+			b := genBatch(rng, &next, 2, false)
+			b.PID, b.Txn = pid, true
+			if _, ok := open[pid]; !ok {
+				first[pid] = b.First
+			}
+			open[pid] = append(open[pid], len(g.Log))
+			g.Log = append(g.Log, Unit{B: b})
+		case 'N':
+			g.Log = append(g.Log, Unit{B: genBatch(rng, &next, 1+rng.Intn(2), false)})
+		case 'A', 'C':
+			typ := 1
+			if tok[0] == 'A' {
+				typ = 0
+			}
+			if idxs, ok := open[pid]; ok {
+				if typ == 0 {
+					for _, i := range idxs {
+						g.Log[i].B.Aborted = true
+					}
+					g.Txns = append(g.Txns, AbortedTxn{pid, first[pid], next})
+				}
+				delete(open, pid)
+				delete(first, pid)
+			}
+			g.Log = append(g.Log, Unit{B: controlBatch(rng, &next, pid, typ)})
+		}
 	}
 	if err := g.Log.Encode(); err != nil {
 		panic(err)
